@@ -154,6 +154,10 @@ pub const DIRECTED: &[(&str, usize, &str)] = &[
     ("colliding-map-keys", 2, r#"(seq (ap ("42" "s42") %m) (seq (ap (42 "n42") %m) (seq (ap ("7" "s7") %m) (seq (ap (7 "n7") %m) (seq (ap (-1 "n") %m) (seq (canon "@P0" %m #%cm) (seq (call "@P1" ("svc" "f1") [#%cm]) (seq (call "@P0" ("svc" "f2") [#%cm #%cm.length]) (canon "@P1" %m whole)))))))))"#),
     // new-scoped stream inside a stream fold, canonicalised per iteration
     ("new-stream-in-fold", 3, r#"(seq (par (call "@P0" ("svc" "f1") [] $s) (call "@P1" ("svc" "f2") [] $s)) (fold $s it (par (new $n (seq (call "@P2" ("svc" "f3") [it] $n) (seq (canon "@P2" $n #cn) (call "@P0" ("svc" "f4") [#cn] z)))) (next it))))"#),
+    // the global stream (and stream map) of a name is first written while a `new` scope of the same name is
+    // still being executed: the recursion of a scalar fold sits inside the scope, the global write after it
+    ("global-stream-first-used-under-new", 2, r#"(seq (call "@P0" ("svc" "arr1") ["d"] arr) (seq (fold arr i (seq (new $s (seq (ap 1 $s) (next i))) (ap i $s))) (seq (canon "@P0" $s #c) (call "@P1" ("svc" "f2") [#c]))))"#),
+    ("global-map-first-used-under-new", 2, r#"(seq (call "@P0" ("svc" "arr1") ["d"] arr) (seq (fold arr i (seq (new %m (seq (ap ("k" 1) %m) (next i))) (ap (i i) %m))) (seq (canon "@P0" %m #%c) (call "@P1" ("svc" "f2") [#%c]))))"#),
 ];
 
 pub const DIRECTED_BASE: u64 = 1_000_000_000;
